@@ -218,6 +218,7 @@ func (l *resolverLog) take() []string {
 var (
 	errType  = reflect.TypeOf((*error)(nil)).Elem()
 	nodeType = reflect.TypeOf((*graph.Node)(nil)).Elem()
+	entType  = reflect.TypeOf((*graph.Ent)(nil)).Elem()
 	uType    = reflect.TypeOf((*graph.U)(nil)).Elem()
 )
 
@@ -225,6 +226,8 @@ func someValue(t reflect.Type) reflect.Value {
 	switch {
 	case t == errType:
 		return reflect.Zero(t)
+	case t == entType:
+		return reflect.ValueOf(&graph.Usr{}).Convert(t)
 	case t == nodeType || t == uType:
 		return reflect.ValueOf(&graph.T{ID: "n"}).Convert(t)
 	}
